@@ -74,6 +74,10 @@ type c10Case struct {
 	okOps  int
 	// instructions of the running program that returned an output without error
 	lastExecuted int
+	// directed programs: exec3 runs this program / payment instead of generating one
+	forceProg func(put func([]byte) uint64, u64 func(uint64) []byte) []c10Instr
+	forcePay  *c10Pay
+	forceFund *types.Currency
 }
 
 func c10Cur(v types.Currency) string { return v.ExactString() }
@@ -442,6 +446,9 @@ func (c *c10Case) form2(renterPayout, hostCollateral types.Currency, defect int)
 	defer tr.Close()
 	fc := crhp2.PrepareContractFormation(key.PublicKey(), h.hostKey.PublicKey(), renterPayout, hostCollateral, h.node.Chain.Tip().Height+400, st, h.node.Wallet.Address())
 	one := types.NewCurrency64(1)
+	if defect == 1 && st.ContractPrice.IsZero() {
+		defect = 2 // nothing to fall short of
+	}
 	switch defect {
 	case 1: // host payout below the contract price
 		v := st.ContractPrice.Sub(c10Min(one, st.ContractPrice))
@@ -694,7 +701,9 @@ func (c *c10Case) renew2(i int, defect int) {
 		one := types.NewCurrency64(1)
 		switch defect {
 		case 1: // host payout below contract price + base price
-			if fc.ValidProofOutputs[1].Value.Cmp(fc.MissedProofOutputs[2].Value) > 0 {
+			// (only when there is something to fall short of: otherwise the contract would be
+			// acceptable to the host but no longer consistent with its payout field)
+			if fc.ValidProofOutputs[1].Value.Cmp(fc.MissedProofOutputs[2].Value) > 0 && !st.ContractPrice.Add(basePrice).IsZero() {
 				v := st.ContractPrice.Add(basePrice).Sub(c10Min(one, st.ContractPrice.Add(basePrice)))
 				fc.ValidProofOutputs[1].Value = v
 				fc.MissedProofOutputs[1].Value = types.ZeroCurrency
@@ -731,6 +740,13 @@ func (c *c10Case) renew2(i int, defect int) {
 		opTerm = fmt.Sprintf("Renew2 %d %d 0 0 0 0 0 0 0 0 0 (mkFC 0 0 0 0 0)", i+1, len(c.cons)+1)
 	}
 	c.em.Count(fmt.Sprintf("renew2:defect=%d", defect))
+	if err != nil {
+		msg := err.Error()
+		if len(msg) > 90 {
+			msg = msg[len(msg)-90:]
+		}
+		c.em.Count("renew2:err:" + msg)
+	}
 	if err == nil {
 		c.deltaMonitor("renew2-cleared", i, before, finalPay)
 		c.cons = append(c.cons, &c10Contract{id: newRev.ID(), key: ct.key})
@@ -958,6 +974,9 @@ func (c *c10Case) fund3(i, a int, defect int) {
 	default:
 		amount = types.Siacoins(1).Div64(uint64(1 + c.rng.Intn(50)))
 	}
+	if c.forceFund != nil {
+		amount = *c.forceFund
+	}
 	total := cost.Add(amount) // never below the cost: the handler's Sub would take the host down (C14)
 	var p c10Prop
 	if ct.cleared {
@@ -1040,6 +1059,10 @@ func (c *c10Case) exec3() {
 	var pending []c10RegWrite
 	n := 1 + c.rng.Intn(3)
 	appended := false
+	if c.forceProg != nil {
+		prog = c.forceProg(put, u64)
+		n = 0
+	}
 	for k := 0; k < n; k++ {
 		switch r := c.rng.Intn(14); {
 		case r < 2 && !appended: // append a sector (at most one per program: 4 MiB of data)
@@ -1076,12 +1099,24 @@ func (c *c10Case) exec3() {
 			root := c.h.roots[c.rng.Intn(len(c.h.roots))]
 			length := uint64(64 * (1 + c.rng.Intn(32)))
 			pre, post := true, c.hostHas(root)
-			if c.rng.Intn(8) == 0 {
+			if c.rng.Intn(16) == 0 {
 				length, pre = 0, false
 			}
 			ol, oo, or := put(u64(length)), put(u64(0)), put(root[:])
 			prog = append(prog, c10Instr{instr: &crhp3.InstrReadSector{LengthOffset: ol, OffsetOffset: oo, MerkleRootOffset: or, ProofRequired: c.rng.Intn(2) == 0}, kind: "KPlain",
 				cost: pt.ReadSectorCost(length), pre: pre, post: post, name: "readsector"})
+		case r < 9 && sectors > 0 && c.rng.Intn(2) == 0: // read at an offset of the contract
+			length := uint64(64 * (1 + c.rng.Intn(32)))
+			offset := uint64(c.rng.Intn(sectors))*crhp2.SectorSize + uint64(64*c.rng.Intn(16))
+			ol, oo := put(u64(length)), put(u64(offset))
+			prog = append(prog, c10Instr{instr: &crhp3.InstrReadOffset{LengthOffset: ol, OffsetOffset: oo, ProofRequired: c.rng.Intn(2) == 0}, kind: "KPlain",
+				cost: pt.ReadOffsetCost(length), pre: true, post: true, con: true, name: "readoffset"})
+		case r < 9 && sectors > 0 && c.rng.Intn(2) == 0: // patch a sector of the contract (a fixed patch: few distinct sectors)
+			length := uint64(64)
+			offset := uint64(c.rng.Intn(sectors)) * crhp2.SectorSize
+			od := put(bytes.Repeat([]byte{0xAB}, int(length)))
+			prog = append(prog, c10Instr{instr: &crhp3.InstrUpdateSector{Offset: offset, Length: length, DataOffset: od, ProofRequired: false}, kind: "KPlain",
+				cost: pt.UpdateSectorCost(length), pre: true, post: true, con: true, fin: true, name: "updatesector"})
 		case r < 9: // revision
 			prog = append(prog, c10Instr{instr: &crhp3.InstrRevision{}, kind: "KPlain", cost: pt.RevisionCost(), pre: true, post: true, con: true, name: "revision"})
 		case r < 10: // store a temporary sector (small programs only: 4 MiB)
@@ -1093,7 +1128,7 @@ func (c *c10Case) exec3() {
 			dur := uint64(1 + c.rng.Intn(10))
 			prog = append(prog, c10Instr{instr: &crhp3.InstrStoreSector{DataOffset: off, Duration: dur}, kind: "KPlain", cost: pt.StoreSectorCost(dur), pre: true, post: true, name: "store"})
 			appended = true
-		case r < 12: // read registry
+		case r < 12 && (len(reg) > 0 || c.rng.Intn(4) == 0): // read registry (mostly once something was written)
 			ki := c.rng.Intn(3)
 			if _, exists := reg[ki]; !exists && c.rng.Intn(4) > 0 {
 				for k2 := 0; k2 < 3; k2++ { // mostly read keys that exist
@@ -1155,7 +1190,12 @@ func (c *c10Case) exec3() {
 	}
 	// budget: enough (with over-payment), or one hasting short of the whole program
 	short := c.rng.Intn(8) == 0
-	pay := c.choosePay(total, short)
+	var pay c10Pay
+	if c.forcePay != nil {
+		pay = *c.forcePay
+	} else {
+		pay = c.choosePay(total, short)
+	}
 	// the payment may revise the program's own contract: finalisation builds on the revision after it
 	base := cur
 	if pay.byContract && pay.con == ci {
@@ -1476,12 +1516,37 @@ func (c *c10Case) run(id int) {
 
 // directedRegistry: UpdateRegistry and ReadRegistry programs, paid by contract and by account
 func (c *c10Case) directedRegistry() {
+	half := types.Siacoins(1).Div64(2)
+	c.forceFund = &half
 	c.fund3(0, 0, 0)
+	c.forceFund = nil
 	for round := 0; round < 2; round++ {
 		for _, write := range []bool{true, false} {
 			c.execRegistry(write, round == 0)
 		}
 	}
+	// a program that pays for a registry read and a temporary sector and then fails: the rollback
+	// refunds the storage spending only
+	c.forceProg = func(put func([]byte) uint64, u64 func(uint64) []byte) []c10Instr {
+		pt := c.pt
+		uk := c.regKey.PublicKey().UnlockKey()
+		var tweak types.Hash256
+		tweak[0] = 1
+		ok := put(append(append([]byte{}, uk.Algorithm[:]...), uk.Key...))
+		ot := put(tweak[:])
+		os := put(c.h.sectors[0][:])
+		ol, oo, or := put(u64(0)), put(u64(0)), put(c.h.roots[0][:])
+		return []c10Instr{
+			{instr: &crhp3.InstrReadRegistry{PublicKeyOffset: ok, PublicKeyLength: 48, TweakOffset: ot, Version: 2}, kind: "KRegRead", cost: pt.ReadRegistryCost(), pre: true, post: true, name: "readregistry"},
+			{instr: &crhp3.InstrStoreSector{DataOffset: os, Duration: 3}, kind: "KPlain", cost: pt.StoreSectorCost(3), pre: true, post: true, name: "store"},
+			{instr: &crhp3.InstrReadSector{LengthOffset: ol, OffsetOffset: oo, MerkleRootOffset: or}, kind: "KPlain", cost: pt.ReadSectorCost(0), pre: false, post: false, name: "readsector"},
+		}
+	}
+	c.forcePay = &c10Pay{acct: 0, amount: types.Siacoins(1).Div64(100)}
+	c.exec3()
+	c.forcePay = &c10Pay{byContract: true, con: 0, acct: 2, prop: c.rhp3Prop(c.contract(0).Revision, types.Siacoins(1).Div64(100), 0)}
+	c.exec3()
+	c.forceProg, c.forcePay = nil, nil
 }
 
 func (c *c10Case) execRegistry(write, byContract bool) {
